@@ -25,6 +25,9 @@ CLAIMED = {
  "C13": ("proof", "E2", "symmetric-variant sentence: the plane is skipped iff it has an unshifted, lower-index, active right neighbour; the two function bodies are token-identical apart from that statement; kept_sym(plane) == should_construct_face(plane) for an active cell",
          "route equality (integrator vs direct, bitwise) and 'built-in integrals reproduce stored values' are not claimed",
          TECH + " — E2 contract on the sliced match arm + structural comparison"),
+ "C18": ("proof", "E1", "cycle algebra of the boundary reconstruction: try_extend equals a functional spec (Err leaves the state untouched, result invariant under rotating the triple), init resets and installs the triangle, every step keeps a single cycle; compute_boundary permutes the removed vertices and ends with chain(edges) = sum of triangle boundaries; theorem: outcomes for re-ordered / rotated inputs are the same cycle. Unbounded (loop invariants, recursive lemmas)",
+         "never-stuck (the greedy search always finds an attachable triangle) is NOT decided; which vertices are removed and 'same volume' are float code outside E1; SimpleCycle::new assumed (external_body)",
+         TECH + " — Verus on functions sliced verbatim from /repo/src with spliced contracts, loop invariants and lemmas"),
 }
 NA = {
 }
